@@ -857,7 +857,7 @@ class C25(Prop):
                     # in the quick tier only the small ones (corpus lines and small generated projects)
 
     def gen(self, rng, tier):
-        nproj = {'quick': 14, 'thorough': 70, 'search': 40}.get(tier, 22)
+        nproj = {'quick': 10, 'thorough': 70, 'search': 40}.get(tier, 22)
         self.link = 99 if tier == 'thorough' else 5
         for _ in range(nproj):
             proj = gen_project(rng)
